@@ -386,7 +386,7 @@ def find_converted_db(converted_gtfs, gtf_filename, complete_genedb):
     db_mtime = converted_gtfs.get(gtf_filename, {}).get('db_mtime')
     db_file = converted_gtfs.get(gtf_filename, {}).get('genedb')
     is_complete = converted_gtfs.get(gtf_filename, {}).get('complete_db')
-    if (os.path.exists(gtf_filename) and os.path.getmtime(gtf_filename) == gtf_mtime and
+    if (db_file is not None and os.path.exists(gtf_filename) and os.path.getmtime(gtf_filename) == gtf_mtime and
             os.path.exists(db_file) and os.path.getmtime(db_file) == db_mtime and complete_genedb == is_complete):
         return db_file
     return None
@@ -407,7 +407,10 @@ def load_config(config_path):
             config = json.load(f_in)
     except (OSError, ValueError):
         return {}
-    return config if isinstance(config, dict) else {}
+    if not isinstance(config, dict):
+        return {}
+    # an entry that is not a dict (file written by another version or edited by hand) is no entry
+    return {key: entry for key, entry in config.items() if isinstance(entry, dict)}
 
 
 def store_config(config_path, config):
